@@ -397,6 +397,10 @@ func Replay(t *testing.T, rs ...Replayer) {
 	}
 	for _, f := range LoadFindings(propID) {
 		if f.Replay == "" {
+			if f.Status == "known" {
+				// a recorded finding whose reproduction takes too long for a replay tier (see its signature)
+				fmt.Printf("KNOWN-FINDING: property=%s %s [%s] (not re-run)\n", propID, f.What, f.ID)
+			}
 			continue
 		}
 		path := filepath.Join(Root(), f.Replay)
